@@ -34,7 +34,7 @@ def dissims(tier):
     """Ordered so that neighbours share alpha but differ in the positional / categorical part, and vice versa:
     the same Alignment object is evaluated with the whole list forwards and then backwards, so a value cached
     on the alignment under a too coarse key (alpha only, delta_empty only, nothing) is observed."""
-    cats = [None, {"k": "ord", "labels": ["x", "y", "z"]}, {"k": "lev", "labels": ["x", "y", "z", "xyz", "w"]}]
+    cats = [None, {"k": "ord", "labels": ["", "x", "y", "z"]}, {"k": "lev", "labels": ["", "x", "y", "z", "xyz", "w"]}]
     combos = [(1.0, 1.0, 1.0, 0), (1.0, 1.0, 2.0, 1), (1.0, 2.0, 0.5, 0), (0.0, 1.0, 1.0, 0), (0.0, 1.0, 2.0, 2),
               (3.0, 2.0, 0.5, 0), (3.0, 1.0, 1.0, 1), (0.5, 1.0, 0.5, 2), (0.5, 1.0, 1.0, 0)]
     if tier == "thorough":
@@ -133,6 +133,7 @@ def lib_alignment(pa, nts, c=None, soft=False):
 
 def shards(tier, seed):
     U = [dict(n=2, k=2, T=2, labels=LABS), dict(n=3, k=1, T=2, labels=LABS), dict(n=4, k=1, T=2, labels=["x", "y"]),
+         dict(n=2, k=2, T=2, labels=["", "x"]), dict(n=3, k=1, T=2, labels=["", "x", "y"]),  # "" is a legal category
          dict(n=5, k=1, T=1, labels=["x", "y"])]
     if tier == "thorough":
         U += [dict(n=3, k=2, T=2, labels=["x", "y"], sym=True), dict(n=2, k=3, T=2, labels=["x", "y"])]
@@ -171,7 +172,7 @@ def run(task):
             if obs["ok"]:
                 aligns.append((kind, obs["nts"], kind == "soft"))
         labels = A.spec_label_set(spec)
-        cats = [None] + [l for l in LABS if l in labels] + ["w"]
+        cats = [None] + [l for l in labels if l is not None] + ["w"]
         for src, nts, soft in aligns:
             al = lib_alignment(pa, nts, c, soft)
             # forwards with every category, then backwards (gamma-cat and one category) on the SAME object
